@@ -5,6 +5,7 @@ package stun_test
 import (
 	"bufio"
 	"encoding/json"
+	"errors"
 	"net"
 	"os"
 	"runtime"
@@ -76,6 +77,21 @@ func settersOf(s allocShape, salt byte) *shapeSetters {
 		x.list = append(x.list, stun.Fingerprint)
 	}
 	return x
+}
+
+var errC20Stop = errors.New("stop")
+
+func c20Visit(m *stun.Message) error {
+	_, _ = m.Get(m.Attributes[0].Type)
+	return nil
+}
+
+// c20AbortAtLast fails on the last attribute of the message (ForEach hands the callback the rest of the list)
+func c20AbortAtLast(m *stun.Message) error {
+	if len(m.Attributes) == 1 {
+		return errC20Stop
+	}
+	return nil
 }
 
 func TestVerifC20(t *testing.T) {
@@ -162,7 +178,11 @@ func TestVerifC20(t *testing.T) {
 		case "decode":
 			op = func() { _, _ = m.Write(measRaw) }
 		case "get":
-			op = func() { _, _ = m.Get(stun.AttrUsername); _ = m.Contains(stun.AttrSoftware); _, _ = m.Get(stun.AttrPriority) }
+			op = func() {
+				_, _ = m.Get(stun.AttrUsername)
+				_ = m.Contains(stun.AttrSoftware)
+				_, _ = m.Get(stun.AttrPriority)
+			}
 		case "xor_getfrom":
 			op = func() { _ = addr.GetFrom(m) }
 		case "text_getfrom":
@@ -177,6 +197,12 @@ func TestVerifC20(t *testing.T) {
 			op = func() { _ = stun.Fingerprint.Check(m) }
 		case "rebuild":
 			op = func() { _ = rebuilt.Build(ml...) }
+		case "foreach":
+			t0 := m.Attributes[len(m.Attributes)/2].Type
+			op = func() { _ = m.ForEach(t0, c20Visit); _ = m.ForEach(stun.AttrPriority, c20Visit) }
+		case "abort_then_decode":
+			tl := m.Attributes[len(m.Attributes)-1].Type
+			op = func() { _ = m.ForEach(tl, c20AbortAtLast); _, _ = m.Write(measRaw) }
 		}
 		allocs := testing.AllocsPerRun(5, op)
 		if nvec%2 == 0 {
